@@ -206,6 +206,9 @@ type EngineCfg struct {
 	Optimizers    []logicalplan.Optimizer
 	NoFallback    bool
 	Timeout       time.Duration
+	// fractions of a millisecond added to a range query's start and end (results are in
+	// milliseconds: the reference engine truncates, so these must not change anything)
+	StartFrac, EndFrac time.Duration
 }
 
 type queryMaker interface {
@@ -236,7 +239,7 @@ func makeQuery(e queryMaker, st storage.Queryable, cfg EngineCfg, qs string, w W
 	if w.Instant() {
 		return e.NewInstantQuery(st, qo, qs, time.UnixMilli(w.Start))
 	}
-	return e.NewRangeQuery(st, qo, qs, time.UnixMilli(w.Start), time.UnixMilli(w.End), time.Duration(w.Step)*time.Millisecond)
+	return e.NewRangeQuery(st, qo, qs, time.UnixMilli(w.Start).Add(cfg.StartFrac), time.UnixMilli(w.End).Add(cfg.EndFrac), time.Duration(w.Step)*time.Millisecond)
 }
 
 // runQuery creates and executes one query; creation errors are reported as
